@@ -44,7 +44,7 @@ type strTest struct {
 
 func c20StringTests() []strTest {
 	var ts []strTest
-	for _, n := range []int{0, 1, 2, 3} {
+	for _, n := range []int{0, 1, 2, 3, -1, math.MaxInt, math.MinInt, math.MaxInt - 1} {
 		n := n
 		ts = append(ts, strTest{fmt.Sprintf("Min(%d)", n), "min", func(s *z.StringSchema[string], not bool) *z.StringSchema[string] { return s.Min(n) }, func(v string) bool { return len(v) >= n }, true})
 		ts = append(ts, strTest{fmt.Sprintf("Max(%d)", n), "max", func(s *z.StringSchema[string], not bool) *z.StringSchema[string] { return s.Max(n) }, func(v string) bool { return len(v) <= n }, true})
